@@ -108,7 +108,6 @@ func (a *covAnalysis) eval(v ssa.Value, depth int) lin {
 	return lin{}
 }
 
-
 type covLoop struct {
 	phi      *ssa.Phi
 	header   *ssa.BasicBlock
